@@ -7,7 +7,7 @@ Incremental reception (C10), the four real scanners.
 * `Good` for every well-formed frame: TCP request / response, RTU response, and RTU request
   without function codes 0x0F / 0x10 (open finding D4).
 -/
-namespace Modbus
+namespace Modbus.Reception
 
 /-! ### which arm of the predictors' `if` chain a function code takes -/
 
@@ -92,7 +92,7 @@ theorem count2_arm (adu : Bytes) (k base : Nat) (fc : UInt8) :
 
 /-! ### the model predictors are the specification's -/
 
-theorem Tcp.requestPduLen_eq (adu : Bytes) :
+theorem tcp_requestPduLen_eq (adu : Bytes) :
     Tcp.requestPduLen adu = predRes (adu[7]?.getD 0) (Spec.predict 7 .req adu) := by
   unfold Tcp.requestPduLen Spec.predict
   by_cases hl : adu.length < 8
@@ -112,7 +112,7 @@ theorem Tcp.requestPduLen_eq (adu : Bytes) :
       exact count1_arm adu 16 10 fc
     · rw [if_neg h1, if_neg h2, if_neg h3, if_neg h4, if_neg h5, if_neg h6, hr]; rfl
 
-theorem Tcp.responsePduLen_eq (adu : Bytes) :
+theorem tcp_responsePduLen_eq (adu : Bytes) :
     Tcp.responsePduLen adu = predRes (adu[7]?.getD 0) (Spec.predict 7 .rsp adu) := by
   unfold Tcp.responsePduLen Spec.predict
   by_cases hl : adu.length < 8
@@ -131,7 +131,7 @@ theorem Tcp.responsePduLen_eq (adu : Bytes) :
       exact count2_arm adu 8 3 fc
     · rw [if_neg h1, if_neg h2, if_neg h3, if_neg h4, if_neg h5, hr]; rfl
 
-theorem Rtu.responsePduLen_eq (adu : Bytes) :
+theorem rtu_responsePduLen_eq (adu : Bytes) :
     Rtu.responsePduLen adu = predRes (adu[1]?.getD 0) (Spec.predict 1 .rsp adu) := by
   unfold Rtu.responsePduLen Spec.predict
   by_cases hl : adu.length < 2
@@ -152,7 +152,7 @@ theorem Rtu.responsePduLen_eq (adu : Bytes) :
 
 /-- The RTU request predictor agrees with the specification **except for function codes 0x0F and
 0x10**, where it reads ADU offset 4 instead of 6 (open finding D4). -/
-theorem Rtu.requestPduLen_eq_partial (adu : Bytes)
+theorem rtu_requestPduLen_eq_partial (adu : Bytes)
     (hF : adu[1]? ≠ some 0x0F) (h10 : adu[1]? ≠ some 0x10) :
     Rtu.requestPduLen adu = predRes (adu[1]?.getD 0) (Spec.predict 1 .req adu) := by
   unfold Rtu.requestPduLen Spec.predict
@@ -177,4 +177,4 @@ theorem Rtu.requestPduLen_eq_partial (adu : Bytes)
       exact count1_arm adu 10 10 fc
     · rw [if_neg h1, if_neg h2, if_neg h3, if_neg h4, if_neg h5, if_neg h6, hr]; rfl
 
-end Modbus
+end Modbus.Reception
